@@ -317,11 +317,11 @@ fn gen_sequence(rng: &mut Rng, max_msgs: usize, allow_big: bool) -> (Vec<Vec<u8>
 pub fn partitions(ctx: &Ctx) -> Report {
     let n = ctx.n(6_000, 2_000_000);
     par_cases(ctx, "partitions", n, ctx.secs(30, 600), |i, rng, rep| {
-        let (msgs, expect) = gen_sequence(rng, 30, true);
+        let (msgs, expect) = gen_sequence(rng, if ctx.tiny { 4 } else { 30 }, !ctx.tiny);
         let total: usize = msgs.iter().map(|m| m.len()).sum();
         let replay = json!({"lane":"partitions","case":i});
         let mut parts = vec![Partition::Single, Partition::Random, Partition::Random, Partition::Fixed(*rng.pick(&[2usize, 3, 7, 8191, 8192, 8193, 4096]))];
-        if total <= 6000 {
+        if total <= if ctx.tiny { 300 } else { 6000 } {
             parts.push(Partition::Bytewise);
         }
         for p in &parts {
